@@ -1434,8 +1434,10 @@ Proof.
     [|cbn [fst res_item]; discriminate].
   destruct ((b =? 91) || (b =? 34) || (b =? 123)); [cbn [fst]; discriminate|].
   pose proof (peek_end_of_value_tot E s2) as Hp.
-  destruct (peek_end_of_value E s2) as [s3|c i| |]; cbn [chk] in Hp; try discriminate Hp;
-    cbn [fst res_item]; discriminate.
+  destruct (peek_end_of_value E s2) as [s3|c i| |]; cbn [chk] in Hp; try discriminate Hp.
+  - cbn [fst]; discriminate.
+  - (* an error of the lookahead: an I/O error is yielded as IErr (and fuses the stream), any other code as IErr too *)
+    destruct c; cbn [fst res_item]; discriminate.
 Qed.
 
 
